@@ -22,6 +22,7 @@ fn add_headers(flow: &mut F<Prepare>, rng: &mut Rng, hop: usize, has_host: bool,
     let mut added = vec![];
     let mut host_added = has_host;
     let mut framed = !may_frame;
+    let mut te_added = false;
     for i in 0..n {
         let mut name = *rng.pick(&NAMES);
         match rng.below(12) {
@@ -32,6 +33,11 @@ fn add_headers(flow: &mut F<Prepare>, rng: &mut Rng, hop: usize, has_host: bool,
             1 if !framed => {
                 name = "content-length";
                 framed = true;
+            }
+            2 if !te_added => {
+                // a coding the library does not apply itself: it is the caller's header all the same
+                name = "transfer-encoding";
+                te_added = true;
             }
             _ => {}
         }
@@ -50,6 +56,10 @@ fn add_headers(flow: &mut F<Prepare>, rng: &mut Rng, hop: usize, has_host: bool,
             value = b"100-continue".to_vec();
         }
         match name {
+            "transfer-encoding" => {
+                value = b"gzip".to_vec();
+                rec.cov("added/transfer-encoding-gzip");
+            }
             "content-length" => value = b"3".to_vec(),
             "host" => value = format!("added{}.test", hop).into_bytes(),
             _ => {
@@ -121,6 +131,47 @@ fn check(head: &[u8], added: &[(String, Vec<u8>)], eff: &Eff, policy: RedirectAu
         }
     }
     true
+}
+
+/// A request in origin-form that carries no header of its own: everything on the wire behind the request
+/// line is what the caller added in the prepare state.
+fn bare_original_case(idx: u64, rec: &mut Rec) {
+    let method = ["GET", "HEAD", "DELETE", "OPTIONS"][(idx % 4) as usize];
+    let target = ["/p", "/", "/a/b?c=1"][(idx / 4 % 3) as usize];
+    const MENU: [(&str, &[u8]); 6] = [("host", b"h.test"), ("cookie", b"a=b"), ("x-a", b"1"), ("accept", b"*/*"), ("cookie", b"c=d"), ("authorization", b"t")];
+    let count = 1 + (idx / 12 % 4) as usize;
+    let start = (idx / 48 % 6) as usize;
+    let small = idx / 288 % 2 == 1;
+    let cfg = ReqCfg::new(method, target);
+    let mut flow = match build_flow(&cfg) {
+        Ok(f) => f,
+        Err(e) => return rec.fail("C16/setup", format!("{:?}", e)),
+    };
+    let mut added = vec![];
+    for k in 0..count {
+        let (n, v) = MENU[(start + k) % MENU.len()];
+        rec.call();
+        if let Err(e) = flow.header(n, ureq_proto::http::HeaderValue::from_bytes(v).unwrap()) {
+            return rec.fail("C16/header-refused", format!("header({:?}) -> Err({:?})", n, e));
+        }
+        added.push((n.to_string(), v.to_vec()));
+    }
+    let mut s = flow.proceed();
+    rec.call();
+    let mut r = crate::rng::Rng::new(idx + 7);
+    let head = if small { write_head_small(&mut s, &mut r) } else { write_head_big(&mut s) };
+    match head {
+        Ok(h) => {
+            rec.ev(|| format!("{} {} without headers of its own, added {:?} -> {:?}", method, target, fmt_fields(&added), esc(&h)));
+            if !s.can_proceed() {
+                return rec.fail("C16/head-not-complete", "head written but the flow is not ready".into());
+            }
+            if check(&h, &added, &initial_eff(&cfg), RedirectAuthHeaders::Never, rec) {
+                rec.cov("bare-original/added-headers-on-the-wire");
+            }
+        }
+        Err(e) => rec.fail("C16/request-refused", format!("{} {} with only caller-added headers {:?}: {:?}", method, target, fmt_fields(&added), e)),
+    }
 }
 
 fn case(rng: &mut Rng, rec: &mut Rec) {
@@ -237,14 +288,22 @@ impl Property for P {
         ]
     }
     fn workloads(&self, tier: Tier) -> Vec<Workload> {
-        vec![Workload::new("flows", tier.pick(15_000, 4_000_000), false, "random flows at depth 0..3")]
+        vec![
+            Workload::new("flows", tier.pick(15_000, 4_000_000), false, "random flows at depth 0..3"),
+            Workload::new("bare-originals", 576, true, "origin-form requests without any header of their own x 1..4 additions from a menu x big / small buffers"),
+        ]
     }
     fn run_case(&self, wl: &str, idx: u64, seed: u64, rec: &mut Rec) {
+        if wl == "bare-originals" {
+            return bare_original_case(idx, rec);
+        }
         let mut rng = Rng::derive(seed, wl, idx);
         case(&mut rng, rec)
     }
     fn floors(&self, _tier: Tier) -> Vec<(String, u64)> {
         let mut v = vec![];
+        v.push(("bare-original/added-headers-on-the-wire".into(), 500));
+        v.push(("added/transfer-encoding-gzip".into(), 200));
         for d in 0..=3 {
             for p in ["never", "same-host"] {
                 v.push((format!("cookie/depth{}/{}", d, p), 20));
